@@ -33,7 +33,11 @@ def n_per_dim(leaf, n_ids):
     return n_ids
 
 
-def make_leaf(kind, n_dim=1, centered=True, n_cov=0, sel=None, n_ids=1):
+def make_leaf(kind, n_dim=1, centered=True, n_cov=0, sel=None, n_ids=1,
+              late_ids=False):
+    """late_ids (heterogeneous leaves): the chi model is created for one
+    individual and learns the number of individuals through set_n_ids only
+    after it has been wrapped (call-order class)"""
     cov = None
     if n_cov:
         npd = 2 if kind in 'GLT' else (1 if kind == 'P' else n_ids)
@@ -45,7 +49,10 @@ def make_leaf(kind, n_dim=1, centered=True, n_cov=0, sel=None, n_ids=1):
             is_full = sel_sorted == full
         cov = {'n_cov': n_cov, 'sel': sel_sorted, 'full': is_full,
                'sel_as_given': sel}
-    return Leaf(kind, n_dim, centered, cov)
+    leaf = Leaf(kind, n_dim, centered, cov)
+    leaf.late_ids = bool(late_ids) and kind == 'H' and (
+        cov is None or (cov['full'] and sel is None))
+    return leaf
 
 
 def build_chi_leaf(leaf, n_ids):
@@ -59,7 +66,9 @@ def build_chi_leaf(leaf, n_ids):
     elif k == 'P':
         m = chi.PooledModel(n_dim=leaf.n_dim)
     elif k == 'H':
-        m = chi.HeterogeneousModel(n_dim=leaf.n_dim, n_ids=n_ids)
+        late = getattr(leaf, 'late_ids', False)
+        m = chi.HeterogeneousModel(n_dim=leaf.n_dim) if late else \
+            chi.HeterogeneousModel(n_dim=leaf.n_dim, n_ids=n_ids)
     else:
         raise ValueError(k)
     if leaf.cov:
@@ -70,6 +79,8 @@ def build_chi_leaf(leaf, n_ids):
             if given is None:
                 given = [list(s) for s in leaf.cov['sel']]
             m.set_population_parameters(given)
+    if getattr(leaf, 'late_ids', False):
+        m.set_n_ids(n_ids)
     return m
 
 
@@ -177,7 +188,8 @@ def random_leaf(rng, n_ids, kinds='GLTPH', max_dim=3, p_cov=0.3,
         if rng.random() < p_partial:
             k = int(rng.integers(1, len(full) + 1))
             sel = [list(full[i]) for i in rng.permutation(len(full))[:k]]
-    return make_leaf(kind, n_dim, centered, n_cov, sel, n_ids)
+    late = kind == 'H' and rng.random() < 0.4
+    return make_leaf(kind, n_dim, centered, n_cov, sel, n_ids, late_ids=late)
 
 
 def random_composition(rng, n_ids, total_dim=None, max_parts=4, max_dim=3,
